@@ -37,9 +37,13 @@ type ReaderPlan struct {
 
 // Plan is one run: workload + model configuration + schedule.
 type Plan struct {
-	Mode     string        `json:"mode"` // serial | tcp
-	MyCall   string        `json:"mycall,omitempty"`
-	Grid     string        `json:"grid,omitempty"`
+	Mode   string `json:"mode"` // serial | tcp
+	MyCall string `json:"mycall,omitempty"`
+	Grid   string `json:"grid,omitempty"`
+	// Side: a second goroutine of the application that, once the TNC is
+	// open, asks for the TNC's version at its own pace (ops: version, sleep)
+	// whatever the main script is doing (a status display, a keep-alive).
+	Side     []Step        `json:"side,omitempty"`
 	Link     pipe.Plan     `json:"link"`      // serial line, or the TCP control socket; A = host, B = TNC
 	DataLink pipe.Plan     `json:"data_link"` // TCP data socket
 	TNC      ardoptnc.Plan `json:"tnc"`
